@@ -709,8 +709,9 @@ def run(ctx):
         "router.is_supported_file/get_extractor and the member extractors, str.lower",
         "7z header byte parsing is modelled (coq/C10/Parse.v, fuel-explicit) and tied by a differential run on written, "
         "mutated and encoded headers (parsed reader state and error class compared); termination is proved; the "
-        "parse-after-serialise round trip is proved for the number codec, names, bit vectors and the whole MainStreamsInfo "
-        "section but NOT yet for FilesInfo and the header composition, so C10_7z_members_exact still starts from the header structure "
+        "parse-after-serialise round trip is proved for plain headers (single-coder folders, attributes without External "
+        "byte or absent), composed into C10_7z_members_exact_from_bytes; the Coq serialiser is tied to the Python writer by a "
+        "differential run; encoded headers and the External-byte attribute dialect are covered by the correspondence only; "
         "the harness's writer serialised (writer validated against libarchive 3.8); struct.unpack and zlib.crc32 are oracles",
         "the temporary directory of the 7z path is modelled as a name->bytes map (path confinement is C09)",
     ]
@@ -723,6 +724,8 @@ def run(ctx):
         "C10_7z_parse_terminates", "C10_7z_end_header_terminates",
         "C10_7z_number_roundtrip", "C10_7z_name_roundtrip", "C10_7z_bitvector_roundtrip",
         "C10_7z_streams_info_roundtrip", "C10_7z_ser_streams_shape", "C10_7z_wf_header_satisfiable",
+        "C10_7z_files_info_roundtrip", "C10_7z_archive_roundtrip", "C10_7z_members_exact_from_bytes",
+        "C10_7z_from_bytes_satisfiable",
         "C10_7z_members_exact", "C10_7z_hypothesis_satisfiable", "C10_7z_members_exact_no_substreams",
         "C10_7z_multi_folder_refuted", "C10_7z_no_substreams_refuted", "C10_7z_empty_file_refuted",
         "C10_7z_corrupt_member_local_refuted", "C10_zip_members_exact", "C10_tar_members_exact",
@@ -821,6 +824,24 @@ def run(ctx):
                       empties_expected=False, skip_idx=datas[k])
 
 
+    # ================================================================= real password-protected documents as members
+    enc_fx = []
+    for pth in sorted((REPO / "sharepoint2text" / "tests" / "resources").glob("*/password_protected/*")):
+        if pth.suffix.lower() in (".docx", ".xlsx", ".pptx", ".pdf", ".doc", ".xls", ".odt", ".ods", ".odp") and pth.stat().st_size < 100_000:
+            enc_fx.append((pth.name, pth.read_bytes()))
+    ctx.extra["encrypted_member_fixtures"] = [n for n, _ in enc_fx]
+    for fname, fdata in enc_fx:
+        members = [("first.txt", "data", b"first member\n"), ("docs/" + fname, "data", fdata), ("last.md", "data", b"# last member\n")]
+        ctx.case(("encrypted-member", fname), True, kind="encrypted-member")
+        d = {"encrypted_member": fname}
+        check_members(ctx, "zip-encrypted-member-affects-others", "a password-protected document inside a ZIP affects other members",
+                      "zip", d, members, write_zip(members, zipfile.ZIP_DEFLATED), "e.zip")
+        check_members(ctx, "tar-encrypted-member-affects-others", "a password-protected document inside a TAR affects other members",
+                      "tar", d, members, write_tar(members, rng.choice(["", "gz", "xz"])), "e.tar")
+        check_members(ctx, "7z-encrypted-member-affects-others", "a password-protected document inside a 7z affects other members",
+                      "7z", d, members, Z.pack(members, rng.choice([[3], [1, 1, 1]]), rng.choice(["copy", "lzma2"]))[0], "e.7z",
+                      empties_expected=False)
+
     # ================================================================= member names outside the BMP (UTF-16 surrogate pairs)
     for nm in ("\U0001F600.txt", "sub/r\U0001F4C4port.md", "\U00020000\u4e00.csv"):
         members = [("a.txt", "data", b"first member\n"), (nm, "data", b"named outside the BMP\n"), ("c.md", "data", b"# last\n")]
@@ -836,6 +857,7 @@ def run(ctx):
 
     # ================================================================= 7z byte-level header parser (model: C10/Parse.v)
     casesp, infop = [], []
+    casess, infos_ = [], []
 
     def add_parse_case(arch, what):
         term, kind = parse_case(arch)
@@ -845,11 +867,36 @@ def run(ctx):
             infop.append((what, kind, arch.hex()[:200]))
     for i in range(ctx.n(70, 700)):
         members = gen_members(rng, 5)
-        if rng.random() < 0.5:
+        std = rng.random() < 0.5
+        if std:
             arch, H, desc = seven_std(rng, members)
         else:
             arch, H, desc = seven_odd(rng, members)
         H = dict(H)
+        if std:
+            # the Coq serialiser (C10/Ser.v, subject of the round-trip theorems) must produce the writer's bytes
+            H2 = dict(H)
+            H2["attr_external_byte"] = False
+            off0 = struct.unpack("<Q", arch[12:20])[0]
+            area0 = arch[32:32 + off0] if not desc.get("encoded_header") else Z.pack(members, desc["cuts"], "copy")[2]
+            if not desc.get("encoded_header"):
+                hb0 = Z.header_bytes(H2)
+                arch0 = reassemble(area0, hb0)
+                ss0 = H2.get("ss")
+                crcb = None if not ss0 or ss0.get("crcs") is None else b"".join(Z.u32(c) for c in ss0["crcs"])
+                efl = [bool(f.get("emptyfile")) for f in H2["files"] if f["empty"]]
+                efb = Z.bitvec(efl) if any(efl) else None
+                wa = any(f.get("attr") is not None for f in H2["files"])
+                tbl = coq_list([f"({coq_bytes(d)}, {cN(zlib.crc32(d) & 0xFFFFFFFF)})" for d in (arch0[12:32], hb0)])
+                casess.append(f"({c_header(H2)}, {c_optbytes(crcb)}, {c_optbytes(efb)}, {coq_bool(wa)}, {coq_bytes(area0)}, "
+                              f"{tbl}, {coq_bytes(hb0)}, {coq_bytes(arch0)})")
+                infos_.append(desc)
+        if rng.random() < 0.3 and H["files"]:
+            # names outside the BMP and lone surrogates (header parser only: such names cannot be created on disk)
+            H["files"] = [dict(f) for f in H["files"]]
+            k = rng.randrange(len(H["files"]))
+            H["files"][k]["name"] = rng.choice(["\U0001F600.txt", "a\ud800b.txt", "x\udc00\ud800y", "\ud83d\ude00z.md",
+                                                 "\U00020000\u4e00", "\udbff\udfff", "q\ud800"]) 
         H["attr_external_byte"] = rng.random() < 0.5
         area = b"".join([])  # pack area is irrelevant for header parsing, but keep the real one
         off = struct.unpack("<Q", arch[12:20])[0]
@@ -1086,6 +1133,8 @@ def run(ctx):
             ctx.extra[f"corr_{name}_disagreements"] = [str(info[i])[:300] for i in failing[:10]]
     corr("sevenzip", "(corr7 T)", cases7, "case7", info7, 40)
     corr("sevenzip_header_parser", "(corrp T)", casesp, "bytes * lz_table * crc_table * pexpect", infop, 40)
+    corr("sevenzip_serialiser", "corrs", casess,
+         "header * option bytes * option bytes * bool * bytes * crc_table * bytes * bytes", infos_, 40)
     corr("zip", "(corrz T)", casesz, "casez", infoz, 60)
     corr("tar", "(corrt T)", casest, "caset", infot, 60)
     corr("detect", "(corrd T)", casesd, "bytes * bool * option str", heads, 200)
